@@ -685,6 +685,12 @@ def read_src(path):
         return f.read()
 
 
+# proof hints (ghost statements spliced into bodies) are bracketed by these comment lines in the generated file; contracts
+# (requires/ensures/invariants/decreases) are not.  vrun uses the brackets to tell a failed hint from a failed contract.
+HINT_BEGIN = '//@@hint-begin'
+HINT_END = '//@@hint-end'
+
+
 def nth_find(text, needle, k):
     """k-th occurrence of needle in the CODE of text: comments are blanked first (an anchor never matches inside a comment)."""
     masked = list(text)
@@ -815,7 +821,7 @@ def apply_fn(text, spec, ctx, assoc_types=None, canary=False):
             ctx.lost_anchors.append('fn %s: anchor %r (occurrence %d)' % (spec.name, anchor, k))
             continue
         s, e = L.stmt_bounds(text, pos)
-        ins.append((s if where == 'before' else e, gtext))
+        ins.append((s if where == 'before' else e, HINT_BEGIN + '\n' + gtext + '\n' + HINT_END))
     # loops
     loops = L.find_loops(text)
     for n, nm in spec.loopiters.items():
@@ -842,18 +848,18 @@ def apply_fn(text, spec, ctx, assoc_types=None, canary=False):
     for n, gtext in spec.loopbodies.items():
         if n < 1 or n > len(loops):
             raise ExtractError('fn %s: loopbody %d requested, function has %d loops' % (spec.name, n, len(loops)))
-        ins.append((loops[n - 1][1] + 1, gtext))
+        ins.append((loops[n - 1][1] + 1, HINT_BEGIN + '\n' + gtext + '\n' + HINT_END))
     if spec.loopends:
         ltoks = L.code_toks(text)
         for n, gtext in spec.loopends.items():
             if n < 1 or n > len(loops):
                 raise ExtractError('fn %s: loopend %d requested, function has %d loops' % (spec.name, n, len(loops)))
             oi = [i for i, t in enumerate(ltoks) if t.s == loops[n - 1][1]][0]
-            ins.append((ltoks[L.match_close(ltoks, oi)].s, gtext))
+            ins.append((ltoks[L.match_close(ltoks, oi)].s, HINT_BEGIN + '\n' + gtext + '\n' + HINT_END))
     unannotated = [i + 1 for i in range(len(loops)) if (i + 1) not in spec.loops]
     body = L.fn_body_brace(text)
     if spec.start:
-        ins.append((body + 1, '\n'.join(spec.start)))
+        ins.append((body + 1, HINT_BEGIN + '\n' + '\n'.join(spec.start) + '\n' + HINT_END))
     if canary:
         ins.append((body + 1, 'proof { assert(false); }'))
     if spec.head:
